@@ -7,20 +7,55 @@ from gen import search as G
 
 ID = "C01"
 LEVEL = "proof"
-LEAN_IMPORTS = ["WM.Props.C01"]
-THEOREMS = ["WM.C01.matcher_den", "WM.C01.segments", "WM.C01.paths_agree"]
-PARTIAL = {}
-RULE = ("random schema (TEXT with positions/chars, KEYWORD, ID, NUMERIC 8..64 bit, DATETIME, BOOLEAN), corpus, "
-        "history (1-5 commits, deletes, merges, W3Codec(blocklimit 1-4 or default)) and query trees (depth <= 5, all "
-        "public node types) per sub-seed; a case = (index, query, access path) or (segment, query, context) for the "
-        "matcher stepping; non-trivial = the expected answer is neither empty nor all live documents, or a "
+LEAN_IMPORTS = ["WM.Props.C01", "WM.Props.C01Cursor"]
+THEOREMS = ["WM.C01.matcher_den", "WM.C01.segments", "WM.C01.paths_agree", "WM.C01.cursor_den",
+            "WM.C01.cursor_answers"]
+_LIST = ("list level: about WM.Compile.compile, the posting list a per-segment matcher tree enumerates, not about "
+         "the cursors of whoosh/matching (synchronised advance, skip_to, the AndNot/Inverse leaks are invisible "
+         "to it); the Lean bridge to the matcher family's cursor model is cursor_den, for term/null leaves and the "
+         "boolean constructors only - multi-term expansion (array union), Phrase (spans) and Every are tied to "
+         "the real matchers only by stepping them in every run. ")
+_POS = ("Hypotheses PosQ (every boost > 0) and PosLeaf (leaf scores of occurring terms > 0) narrow 'for all query "
+        "trees incl. boosts': with a zero or negative boost the array union (membership = accumulated score > 0) "
+        "drops satisfying documents - Lean counterexample in WM/Props/C01.lean, observable finding "
+        "ArrayUnionMatcher:document-with-non-positive-accumulated-score-is-dropped (C09, ReverseWeighting). ")
+PARTIAL = {
+    "WM.C01.matcher_den": _LIST + _POS + "NumericRange/DateRange, Every(None) and the outer complement of Not are "
+                          "the specification verbatim in the model (value level), so the theorem says nothing "
+                          "about them beyond the combination with the other nodes.",
+    "WM.C01.segments": _LIST + _POS,
+    "WM.C01.paths_agree": _LIST + _POS + "'access path' here = search context (needs_current x scored) x tree shape "
+                          "oracle, plus the specification-side fact that ranking permutes the answer; limit=k "
+                          "(C05/C14), sortedby, filter/mask and the Query.docs overrides (Require.docs -> And, "
+                          "AndMaybe.docs -> a) are not parameters of the theorem: they are compared on the real "
+                          "code only (nine paths per query in every run).",
+    "WM.C01.cursor_den": "TreeOnly fragment: term and null leaves, And/Or/DisjunctionMax through the binary tree "
+                         "(not the array union, i.e. the contexts/sizes where whoosh builds a union tree), Not, "
+                         "AndNot, AndMaybe, Require, boosts, ConstantScoreQuery; the cursor constructors are the "
+                         "matcher family's model (C11 proves them faithful cursors), that Query.matcher builds "
+                         "this tree is checked by stepping real matchers.",
+    "WM.C01.cursor_answers": "cursor_den's fragment and matcher_den's hypotheses (PosQ, PosLeaf, ValidOracle)",
+}
+RULE = ("random schema (TEXT with positions/chars, KEYWORD, ID, NUMERIC 8..64 bit, DATETIME, BOOLEAN), corpus over "
+        "an ASCII + non-ASCII vocabulary, history (1-5 commits, deletes, merges, W3Codec(blocklimit 1-4 or default)) "
+        "and query trees (depth <= 5, all public node types; AndNot/AndMaybe/Require with sparse required sides "
+        "nested under And/Or) per sub-seed; two 2300-document single-segment corpora per run cross the array "
+        "union's 2048-document part boundary; a case = (index, query, access path) or (segment, query, context) "
+        "for the matcher stepping; non-trivial = the expected answer is neither empty nor all live documents, or a "
         "compound tree runs over >= 2 segments; distinct = distinct (corpus seed, query, path)")
 ASSUMPTIONS = [
-    "theorems are about the list-level model WM.Compile.compile (what a matcher tree enumerates); that the "
-    "cursor implementations in whoosh/matching enumerate these lists is C11's claim, tied here by stepping the "
-    "real matcher of every segment in every run",
-    "positive boosts and leaf scores, no empty term (hypotheses PosQ, PosLeaf, NoEmptyTerm; evaluated by the "
-    "driver on every generated case, see stats hyp:*); zero/negative boosts are outside the theorems",
+    "theorems are about the list-level model WM.Compile.compile (what a matcher tree enumerates); for term/null "
+    "leaves and the boolean constructors cursor_den proves that the cursor tree of the matcher family's model "
+    "(C11) denotes exactly that list; for the remaining node types (multi-term, phrase, array union) the tie to "
+    "whoosh/matching is the stepping of the real matcher of every segment in every run",
+    "positive boosts and leaf scores (hypotheses PosQ, PosLeaf; evaluated by the driver on every generated case, "
+    "see stats hyp:*); zero/negative boosts are outside the theorems",
+    "the empty term is an ordinary term in the model: this mirrors the repair of MultiTerm.matcher proposed on "
+    "branch r2-search (9ad90ad); on a tree without it corpus/C01/empty-term.json shows the recorded finding "
+    "MultiTerm.matcher:empty-term-is-skipped-by-the-expansion",
+    "terms are UTF-8 byte strings ordered bytewise (TermRange, Prefix); Wildcard '?' and the FuzzyTerm distance and "
+    "prefix length count code points of the decoded term (WM.Search.utf8Decode), as whoosh does on text; the "
+    "vocabulary contains 2- and 3-byte characters",
     "NumericRange/DateRange are modelled on values (their decomposition into tier terms is C13's claim)",
     "regular expressions: the matching term set is computed by Python's re on the corpus lexicon",
 ]
@@ -34,10 +69,10 @@ MANIFEST = {
                   "per-segment list has exactly the live satisfying documents (matcher_den), segments concatenate "
                   "with offsets to the specified answer (segments), all access paths agree (paths_agree); the model "
                   "is tied to whoosh on every run by stepping real matchers per segment and by running the public "
-                  "API (7 access paths) against the Lean specification.",
-    "level_note": "Hypotheses: positive boosts/leaf scores, no empty term, valid tree shapes. Cursor-level "
-                  "correctness of whoosh/matching (C11) and the numeric tier decomposition (C13) are other "
-                  "properties; their known defects surface here as narrow findings.",
+                  "API (9 access paths) against the Lean specification.",
+    "level_note": "Hypotheses: positive boosts/leaf scores, valid tree shapes (see PARTIAL). List level; the Lean "
+                  "bridge to the cursor model of C11 (cursor_den, cursor_answers) covers leaves and boolean "
+                  "constructors. The numeric tier decomposition is C13's property.",
     "technique": "machine-checked proof in Lean 4 over an executable model + differential correspondence check "
                  "against the implementation + end-to-end run of the public API against the Lean specification",
 }
@@ -84,17 +119,49 @@ def corpus_jobs(pid, scratch):
     return jobs
 
 
+def interleave(*streams):
+    """round-robin merge, so that a deadline cuts every stream proportionally"""
+    out, its = [], [iter(x) for x in streams]
+    while its:
+        for it in list(its):
+            try:
+                out.append(next(it))
+            except StopIteration:
+                its.remove(it)
+    return out
+
+
+def run_jobs(ctx, jobs, deadline, fn=None, batch=32):
+    """Run the jobs in batches of worker processes until they are done or `deadline` seconds of the
+    check have elapsed (the machine is shared: the case budget is what an idle machine does in
+    well under the tier's time limit; a loaded one stops earlier instead of overrunning)."""
+    fn = fn or G.work
+    done, results = [], []
+    for i in range(0, len(jobs), batch):
+        if i and ctx.elapsed() > deadline:
+            ctx.stat("jobs-not-run-deadline", len(jobs) - i)
+            ctx.note("deadline %ds reached after %d of %d generated cases" % (deadline, i, len(jobs)))
+            break
+        part = jobs[i:i + batch]
+        results += ctx.pmap(fn, part, chunksize=2)
+        done += part
+    return done, results
+
+
 def run(ctx):
-    n = ctx.budget(110, 1900)
+    n = ctx.budget(520, 4200)
     seeds = ["%s:%d:%d" % (ctx.pid, ctx.seed, i) for i in range(n)]
     with ctx.scratch() as scratch:
         opts = {"nq": 8, "scratch": scratch, "scores": False, "corr": True, "hyp": True}
-        jobs = corpus_jobs(ID, scratch) + [(sd, opts) for sd in seeds]
-        if ctx.tier == "thorough":
-            # larger corpora: more blocks per posting list, array-union parts, long histories
-            big = dict(opts, ndocs=300, nq=6, max_shrinks=3)
-            jobs += [("%s:%d:big%d" % (ctx.pid, ctx.seed, i), big) for i in range(48)]
-        results = ctx.pmap(G.work, jobs, chunksize=2)
+        main = [(sd, opts) for sd in seeds]
+        # larger corpora: more blocks per posting list, long histories; and single segments beyond
+        # 2048 documents, where ArrayUnionMatcher works in several parts
+        big = dict(opts, ndocs=300, nq=6, max_shrinks=3)
+        huge = dict(opts, ndocs=2300, nseg=1, nq=4, max_shrinks=2, maxdepth=3, vocab_n=40, sparse_or=3)
+        bigs = [("%s:%d:big%d" % (ctx.pid, ctx.seed, i), big) for i in range(ctx.budget(6, 60))]
+        huges = [("%s:%d:huge%d" % (ctx.pid, ctx.seed, i), huge) for i in range(ctx.budget(2, 10))]
+        jobs = corpus_jobs(ID, scratch) + huges + interleave(main, bigs)
+        done, results = run_jobs(ctx, jobs, 45 if ctx.tier == "quick" else 480)
     absorb(ctx, results, "Compile.compile")
     floor_check(ctx)
     ctx.sample({"seed": results[-1]["seed"], "stats": results[-1]["stats"]})
